@@ -7,7 +7,7 @@ from .. import ref as R
 
 NBATCH = {'quick': 16, 'thorough': 64}
 BUDGET_S = {'quick': 80, 'thorough': 180}
-PER_BATCH = {'quick': 45, 'thorough': 700}
+PER_BATCH = {'quick': 90, 'thorough': 1500}
 FLOORS = {
     'quick': {'distinct_nontrivial': 5000, 'feature:collision': 5000, 'feature:keyword-exception': 300, 'feature:priority-decides': 500,
               'feature:width-decides': 1000, 'feature:lex-error': 500, 'feature:bytes': 400, 'feature:regex-module': 200,
